@@ -330,9 +330,12 @@ class GuardStates:
     def _const_assign_fact(self, node: Node) -> Optional[Fact]:
         """`x = None` / `x = 0` / `x = True` leaves a fact about x (value known after the store)."""
         a = node.ast
-        if node.kind != "stmt" or not isinstance(a, ast.Assign) or len(a.targets) != 1:
+        if node.kind == "stmt" and isinstance(a, ast.AnnAssign) and a.value is not None:
+            t, v = a.target, a.value
+        elif node.kind != "stmt" or not isinstance(a, ast.Assign) or len(a.targets) != 1:
             return None
-        t, v = a.targets[0], a.value
+        else:
+            t, v = a.targets[0], a.value
         if _path(t) is not None and isinstance(v, (ast.JoinedStr, ast.List, ast.Dict, ast.Tuple, ast.Set, ast.ListComp, ast.DictComp, ast.SetComp)):
             # a freshly built string / container is not None
             return self._fact(ast.parse(f"{_path(t)} is None", mode="eval").body, False)
